@@ -59,6 +59,36 @@ SCHEMAS = {
         directive @note(text: String = "a\\nb") on FIELD_DEFINITION
         type Query { a: Int }
     ''',
+    # descriptions are text: lines that start with a hash (markdown headings, hashtags), with a quote, with a brace stay in them
+    "descriptions-with-lines-that-look-like-comments-or-sdl": '''
+        """
+        # Query root
+        The entry point.
+          # indented heading
+        #hashtag
+        type Fake { x: Int }
+        """
+        type Query {
+          """
+          # field
+          }
+          """
+          a(
+            "# argument description"
+            n: Int
+          ): Mode
+        }
+        """
+        # An enum
+        """
+        enum Mode {
+          """
+          #1 value
+          """
+          FAST
+          SLOW
+        }
+    ''',
 }
 
 
@@ -78,6 +108,12 @@ def check_round_trip(name="everything", extra_type_names=()):
         extra = '"""described in the second file"""\ntype FromSecondFile { note: String }'
         open(os.path.join(d, "schema_dir", "a_main.graphql"), "w").write(sdl.rstrip() + "\n# end of the first file")
         open(os.path.join(d, "schema_dir", "sub", "b_more.graphqls"), "w").write(extra)
+        # a third file whose name has several dots, a file that is not a schema file, a directory named like a schema file
+        extra2 = 'type FromDottedFile { n: Int }'
+        open(os.path.join(d, "schema_dir", "sub", "c.types.v2.gql"), "w").write(extra2)
+        open(os.path.join(d, "schema_dir", "notes.graphql.txt"), "w").write("this is not SDL {")
+        os.makedirs(os.path.join(d, "schema_dir", "empty.graphql"))
+        extra = extra + "\n" + extra2
         source_dir = G.build_schema(sdl + "\n" + extra)
         # every accepted file type, in the spellings the settings accept (the type is case-insensitive)
         single = source
